@@ -148,55 +148,64 @@ def r123_check_game(ctx, chk, rule="C09.1"):
 
 
 def r4_check_next_states(ctx, chk, rule="C09.1"):
-    f = ctx.func("tad.py::Node.check_next_states")
-    sx = SymX(ctx, f, "Node").run()
+    """Per node class, through its constructor (so that whatever the constructor sets up before validation is seen)."""
     n_eval = n_bad = 0
-
-    def judge(desc, ns, player, n):
-        nonlocal n_eval, n_bad
-        env = {A("next_states"): ns, A("player"): player, A("num_states"): n}
-        out = Evaluator(sx, env).run()
-        n_eval += 1
-        legal = isinstance(ns, list) and all(legal_elem(e, player, n) for e in ns)
-        if (legal and out[0] == "accept") or (not legal and out[0] == "raise" and out[1] == "ValueError"):
-            return
-        n_bad += 1
-        if n_bad > 6:
-            return
-        what = "transitions %r of a %s state, n=%d" % (ns, player, n)
-        if out[0] == "crash":
-            chk.violation(rule, f.where(), "check_next_states crashes with %s (at `%s`) instead of raising ValueError on %s (%s)" % (out[1], out[2], what, desc),
-                          expected="ValueError", found=out[1], construct="check_next_states crash %s" % desc)
-        elif out[0] == "raise":
-            if legal:
-                chk.violation(rule, f.where(), "check_next_states rejects well-formed %s" % what, expected="accepted", found="raise " + str(out[1]),
-                              construct="check_next_states too strict %s" % desc)
-            else:
-                chk.violation("C09.3", f.where(), "check_next_states raises %s instead of ValueError on %s" % (out[1], what), expected="ValueError",
-                              found=out[1], construct="check_next_states raises %s" % out[1])
-        else:
-            chk.violation(rule, f.where(), "check_next_states ACCEPTS ill-formed %s (%s)" % (what, desc), expected="raise ValueError", found="accepted",
-                          construct="check_next_states accepts %s" % desc)
+    pc = ctx.cg.player_class
+    where = ctx.func("tad.py::Node.check_next_states").where()
     try:
         for player in (P1, P2, PR):
+            cls = pc.get(player)
+            if cls is None:
+                chk.undecided(rule, where, "no node class for %s" % player)
+                continue
+            ctor = ctx.prog.resolve_method(cls, "__init__")
+            sx = SymX(ctx, ctor, cls, inline_depth=3).run()
+            if not any(e[1] == "raise" for e in sx.final.effects) and not any(e[1] == "raise" for L in sx.loops.values() for e in L.effects):
+                chk.violation("C09.4", ctor.where(), "constructing a %s node performs no validation of its transitions" % cls, expected="check_next_states() from the constructor",
+                              found="no raise reachable", construct="%s constructor does not validate" % cls)
+                continue
             for n in (1, 3):
                 good = ("a" if player != PR else 0.5, 0)
-                for whole in ([], (good,), None, "ab", 5, {0: good}, [good]):
-                    judge("container type %s" % type(whole).__name__, whole, player, n)
+                cases = [("container type %s" % type(w).__name__, w) for w in ([], (good,), None, "ab", 5, {0: good}, [good])]
                 fam = elem_family(player, n)
                 for k in (1, 2, 3):
                     for pos in range(k):
                         for e in fam:
                             ns = [good] * k
                             ns[pos] = e
-                            judge("element kind %s at position %d of %d" % (_kind(e, n), pos, k), ns, player, n)
+                            cases.append(("element kind %s at position %d of %d" % (_kind(e, n), pos, k), ns))
+                for desc, ns in cases:
+                    env = {("v", "next_states"): ns, ("v", "player"): player, ("v", "num_states"): n, ("v", "idx"): 0, ("v", "reward"): 0,
+                           ("v", "is_final_node"): False}
+                    out = Evaluator(sx, env).run()
+                    n_eval += 1
+                    legal = isinstance(ns, list) and all(legal_elem(e, player, n) for e in ns)
+                    if (legal and out[0] == "accept") or (not legal and out[0] == "raise" and out[1] == "ValueError"):
+                        continue
+                    n_bad += 1
+                    if n_bad > 6:
+                        continue
+                    what = "transitions %r of a %s state (%s), n=%d" % (ns, player, cls, n)
+                    if out[0] == "crash":
+                        chk.violation(rule, where, "validation crashes with %s (at `%s`) instead of raising ValueError on %s (%s)" % (out[1], out[2], what, desc),
+                                      expected="ValueError", found=out[1], construct="check_next_states crash %s %s" % (cls, desc))
+                    elif out[0] == "raise":
+                        if legal:
+                            chk.violation(rule, where, "validation rejects well-formed %s" % what, expected="accepted", found="raise " + str(out[1]),
+                                          construct="check_next_states too strict %s %s" % (cls, desc))
+                        else:
+                            chk.violation("C09.3", where, "validation raises %s instead of ValueError on %s" % (out[1], what), expected="ValueError",
+                                          found=out[1], construct="check_next_states raises %s" % out[1])
+                    else:
+                        chk.violation(rule, where, "validation ACCEPTS ill-formed %s (%s)" % (what, desc), expected="raise ValueError", found="accepted",
+                                      construct="check_next_states accepts %s %s" % (cls, desc))
     except EvalUnsupported as e:
-        chk.undecided(rule, f.where(), "guard summary outside the decidable fragment: %s" % e)
+        chk.undecided(rule, where, "guard summary outside the decidable fragment: %s" % e)
         return
     chk.extra["check_next_states_witnesses"] = n_eval
     if not n_bad:
-        chk.ok(rule, f.where(), "check_next_states: %d cell representatives (container type; tuple-ness, length, label type per player kind, successor type and "
-               "range incl. -1, 0, n-1, n; at every position of 1-3 element lists): ill-formed => ValueError, well-formed => accepted, no guard crashes" % n_eval)
+        chk.ok(rule, where, "transition validation through the three node constructors: %d cell representatives (container type; tuple-ness, length, label type per player kind, "
+               "successor type and range incl. -1, 0, n-1, n; at every position of 1-3 element lists): ill-formed => ValueError, well-formed => accepted, no guard crashes" % n_eval)
 
 
 def _kind(e, n):
